@@ -121,6 +121,18 @@ func (w *Worker) computeRef(info *linter.CheckerInfo, params map[string]any, goV
 			e.Panic = fmt.Sprint(r)
 		}
 	}()
+	// The reference run executes checker code too: process-wide shared state
+	// (astcast sentinels, the registry) must come out of it unchanged, else
+	// every later comparison in this process is made against polluted state.
+	sent0, reg0 := fpSentinels(), fpRegistry()
+	defer func() {
+		if fpSentinels() != sent0 {
+			w.refDirty = append(w.refDirty, [2]string{"sentinel-mutated", info.Name})
+		}
+		if fpRegistry() != reg0 {
+			w.refDirty = append(w.refDirty, [2]string{"registry-mutated", info.Name})
+		}
+	}()
 	ctx := linter.NewContext(ref.Fset, ref.Sizes)
 	ctx.SetGoVersion(goVersion)
 	c, err := linter.NewChecker(ctx, info)
